@@ -462,3 +462,48 @@ Proof.
   unfold abs, rows_of_cols, mk_rows. simpl fst. simpl snd.
   apply map_ext. intros i. f_equal. rewrite !map_map. apply map_ext. intros c. reflexivity.
 Qed.
+
+(* ---------- the dimension checks of the binding (repaired code: no descriptor lets
+   metadata_offset set num_rows) ---------- *)
+Lemma parse_ragged_lengths md inputs : forall j nr n,
+  parse_ragged md false j nr inputs = Ok (Some n) ->
+  (forall x, nr = Some x -> x = n) /\
+  forall data offs, In (Some (data, offs)) inputs ->
+    zlen offs = n + 1 /\ get offs n = Ok (zlen data).
+Proof.
+  induction inputs as [|inp inputs IH]; intros j nr n H; simpl in H.
+  - inversion H; subst. split; [intros x E; inversion E; reflexivity | intros ? ? []].
+  - destruct inp as [[data offs]|].
+    2:{ destruct (IH _ _ _ H) as [A B]. split; [exact A|]. intros d o [X|X]; [discriminate | apply B; exact X]. }
+    destruct nr as [x|].
+    + simpl in H.
+      destruct (zlen offs =? x + 1) eqn:L; simpl in H; [|discriminate]. apply Z.eqb_eq in L.
+      binv H as last G H1. destruct (last =? zlen data) eqn:E; simpl in H1; [|discriminate].
+      apply Z.eqb_eq in E. subst last.
+      destruct (IH _ _ _ H1) as [A B]. specialize (A x eq_refl). subst x.
+      split; [intros y Ey; inversion Ey; reflexivity|].
+      intros d o [X|X]; [inversion X; subst; auto | apply B; exact X].
+    + simpl in H. destruct (zlen offs =? 0) eqn:Z0; [discriminate|].
+      binv H as last G H1. destruct (last =? zlen data) eqn:E; simpl in H1; [|discriminate].
+      apply Z.eqb_eq in E. subst last.
+      destruct (IH _ _ _ H1) as [A B]. specialize (A _ eq_refl). subst n.
+      split; [intros y Ey; discriminate|].
+      intros d o [X|X]; [inversion X; subst d o; split; [lia | exact G] | apply B; exact X].
+Qed.
+
+(* F15 repaired: an accepted column set has num_rows entries in every fixed column and
+   num_rows + 1 offsets, ending at the data length, in every supplied ragged column *)
+Theorem parse_cols_lengths d cs n :
+  td_mdlen_bug d = false -> parse_cols d cs = Ok n ->
+  Forall (fun c => zlen c = n) (fst cs) /\
+  forall data offs, In (Some (data, offs)) (snd cs) -> zlen offs = n + 1 /\ get offs n = Ok (zlen data).
+Proof.
+  intros Hb H. unfold parse_cols in H. rewrite Hb in H.
+  match type of H with (if negb ?c then _ else _) = _ => destruct c eqn:Fx; simpl in H; [|discriminate] end.
+  match type of H with (if negb ?c then _ else _) = _ => destruct c; simpl in H; [|discriminate] end.
+  binv H as nr P H1. destruct nr as [x|]; [|discriminate]. inversion H1; subst x; clear H1.
+  destruct (parse_ragged_lengths _ _ _ _ _ P) as [A B]. split; [|exact B].
+  rewrite forallb_forall in Fx. apply Forall_forall. intros c Hc. specialize (Fx c Hc).
+  destruct (fst cs) as [|c0 l] eqn:E; [destruct Hc|]. specialize (A _ eq_refl).
+  apply Z.eqb_eq in Fx. lia.
+Qed.
